@@ -474,7 +474,7 @@ def c02_query_extents(rep, scr, impl, md, consts, tier, seed):
                 add('strnatcmp_s', [res, ('R', D), ('R', S)], [(1, 0), n, (2, 0), 0, (0, 0), UNK, UNK], n=n, fill=name, src=sn, which='dest')
                 add('strcoll_s', [res, ('R', D), ('R', S)], [(1, 0), n, (2, 0), (0, 0), UNK], n=n, fill=name, src=sn, which='dest')
             add('strcmpfld_s', [res, ('R', D), ('R', D[:-1] + b'z')], [(1, 0), n, (2, 0), (0, 0), UNK], n=n, fill=name, src='field', which='both')
-            add('strispassword_s', [res, ('R', bytes([0x61, 0x42, 0x31, 0x21, 0x63, 0x44, 0x32, 0x23][:max(n, 6)]))], [(1, 0), max(n, 6), UNK], n=max(n, 6), fill='password', which='dest')
+            add('strispassword_s', [res, ('R', bytes(([0x61, 0x42, 0x31, 0x21, 0x63, 0x44, 0x32, 0x23] * 5)[:max(n, 6)]))], [(1, 0), max(n, 6), UNK], n=max(n, 6), fill='password', which='dest')
     cf = '%s/cases_c02q.txt' % scr.dir
     with open(cf, 'w') as f:
         for c in cs: f.write(c.line() + '\n')
